@@ -506,3 +506,4 @@ def run(ctx):
     _run_rules(ctx)
     from .. import boundaries
     boundaries.check(ctx, 'C12.RB', 'C12')
+    boundaries.check_calls(ctx, 'C12.RC', 'C12')
